@@ -31,6 +31,92 @@ from vlib.run import Ob, sym_run, merge_runs, conc_run
 
 PROPERTY = "C15"
 
+META = {
+    "bounds": {
+        "quick": {
+            "tables": "all a, b in [1,255] (both symbolic, one query per quarter of the a range); exp/log2 inverse for all a in [1,255], i in [0,254]",
+            "lemma": "every constant L in 0..254 x every byte y",
+            "split/recover": "secrets of 16 bytes: (k,n) in {(1,1),(2,2),(2,3),(3,3),(3,5)}; 32 bytes: {(1,1),(2,3),(3,5)}; every secret byte and "
+                             "every random byte symbolic (all lanes at once); every subset of >= k of the n shares",
+            "refusal": "0..5 shares; id, exponent, group threshold / count, member index / threshold and value of every share symbolic "
+                       "over their whole field range; group indices symbolic for up to two shares (others fixed by the shape); share "
+                       "lengths 128/256 (also mixed)",
+            "rs1024": "one step from every 30-bit state; left fold and affinity for fully symbolic prefixes of 0..2 symbols; per word "
+                      "position of 20- and 33-word shares: syndrome map of a single symbolic error on the real function and rejection of "
+                      "every single-word substitution by the real rs1024_verify_checksum; 2- and 3-word errors: 24 sampled position "
+                      "pairs and 24 sampled position triples per share length, all error symbols symbolic",
+            "codec": "Share.mnemonic / Share.parse for 128- and 256-bit shares with every header field and the value symbolic; every "
+                     "sequence of 20 / 33 list words (full words, four-letter prefixes, alternating) accepted exactly when checksum, "
+                     "padding and threshold <= count hold, and re-encoded identically; one unknown word at positions 0, 4, last",
+            "feistel": "payload 16 / 32 symbolic bytes, passphrase of 0, 1, 6, 40 symbolic bytes, identifier symbolic (15 bits), "
+                       "exponent symbolic in 0..2; both directions",
+            "wiring": "generate_shares -> recover_mnemonic: 1-of-1 and 2-of-3 (every subset of >= 2 shares), 16-byte secret, symbolic "
+                      "secret / passphrase (0 and 3 bytes) / identifier / random bytes, exponent 0 and 1"},
+        "thorough": {
+            "tables": "same", "lemma": "same",
+            "split/recover": "16- and 32-byte secrets: every k <= n <= 5 with every subset of >= k shares; (k,k) for k = 6..16; "
+                             "(1,16),(2,16),(5,16),(9,16),(15,16),(2,8),(7,10),(13,15) with 12 sampled subsets each (sampled - the first k, "
+                             "the last k and all n shares always included)",
+            "refusal": "additionally three shares with all group indices symbolic, two symbolic + one fixed, six-share shapes",
+            "rs1024": "prefixes of 0..3 symbols; every position triple of 20-word (1140) and 33-word (5456) shares with three symbolic "
+                      "error symbols (each triple covers its sub-patterns, hence every 1-, 2- and 3-word error)",
+            "codec": "same plus the all-prefix form", "feistel": "passphrase lengths 0,1,2,6,13,40,100",
+            "wiring": "(1,1),(1,3),(2,2),(2,3),(3,5),(5,5),(2,8) over 16/32-byte secrets, exponents 0..2, sampled subsets for n >= 5"}},
+    "outside": [
+        "'fewer than k shares never return a secret' is decided structurally (O3: what recover() accepts is a consistent set with at "
+        "least `threshold` distinct groups / members, the digest check being assumed to pass whenever it is reached); that k-1 shares "
+        "carry no information and that a digest coincidence does not occur is cryptographic and not claimed",
+        "'shares of different splits cannot be mixed' = differing identifier / exponent / thresholds / counts / lengths are refused; two "
+        "splits that happen to share all of these are only told apart by the 4-byte digest (cryptographic, not claimed)",
+        "judgement: split_secret(secret, 1, n) hands out ONE share (index 0, the secret itself) for every n, so generate_shares(m, 1, n) "
+        "returns a single mnemonic that says '1 of n' (SLIP39 hands out n copies). The property quantifies over the shares that exist: "
+        "every one of them recovers the mnemonic. Observed, not flagged",
+        "judgement: O2 demands the SLIP39 polynomial (secret at x=255, digest share HMAC-SHA256(key=R, msg=secret)[:4] || R at x=254, "
+        "random shares at x=0..k-3), not only that recover inverts split (the anchors of the property name these coordinates)",
+        "share lengths other than 128 / 256 bits (20 / 33 words).  Observed, not flagged: for lengths that are multiples of 10 bits "
+        "(e.g. 160) Share.mnemonic() pads with a whole extra zero word (padding = 10 - bits % 10 = 10): 24 words where SLIP39 has 23; "
+        "Share.parse reads that form back, so the library is self-consistent there",
+        "two-level (group / member) sharing: generate_shares only produces single-member groups; the group / member control flow of "
+        "recover() is covered structurally in O3, the member-level interpolation is the same recover_secret as in O2",
+        "RS1024 beyond 3 wrong words; insertion / deletion of words (a different word count changes the share length and is a different "
+        "parse); the GF(1024) distance argument itself is replaced by one z3-verified linear-algebra certificate per position set",
+        "RS1024 affinity at full length rests on: (i) XOR-linearity of one loop step from an arbitrary state (z3, real function), (ii) the "
+        "function being a left fold of that step (read off the source; z3-checked for prefixes of 0..3 symbols), (iii) direct symbolic "
+        "runs of the real function with one symbolic word at each position of 20- and 33-word shares",
+        "Unicode normalisation of passphrases; passphrases are bytes", "exponents above 2 in O5/O6 (the iteration count is a PBKDF2 argument only)",
+        "BIP39 encoding / decoding of the master secret (C14); in O6 it is a seam"],
+    "stubs": [
+        "source-level seams in sbuidl.shamir (loader.PATCHES): `a if c else b` in rs1024_polymod / interpolate becomes a non-forking ite; "
+        "set comprehensions in ShareSet.__init__ / recover become a list-backed set with symbolic equality (hashing a symbolic field "
+        "would enumerate it). Agreement of the rewritten functions with the native ones is re-checked on random vectors in every worker",
+        "ShareSet.exp / ShareSet.log2 wrapped in a list subclass: a symbolic index is a table select over exactly the real entries",
+        "O2 / O6: the expression `exp[(log2[y] + L) % 255] if y > 0 else 0` (concrete L, symbolic y) is replaced by the xor/shift form of "
+        "y * exp[L % 255]; justified for every L by O2-lemma on the real tables",
+        "O2 / O6: inside recover_secret, the result of interpolate is replaced by the original bytes once z3 has proved them equal "
+        "(proved-equal substitution), so that the HMAC of the digest check is the same hash-consed symbol as in split_secret",
+        "HMAC-SHA256 and PBKDF2-HMAC-SHA256 as hash-consed uninterpreted functions; secrets.randbits returns arbitrary symbolic values",
+        "O3: recover_secret returns an arbitrary secret of the share length (the digest check is taken to pass whenever reached) and "
+        "decrypt is the identity; Share.__repr__ (only used in error messages) is a constant",
+        "O4 codec / O6: SLIP39 word list replaced by handle tables (token <-> symbolic index) behind the real WordList methods (facts "
+        "checked concretely in O0); rs1024_polymod(values) for more than three values composed as Z(values[:-3]) ^ pack(values[-3:]) with "
+        "Z an uninterpreted function of the prefix (lemmas O4-rs-step / O4-rs-fold on the real function)",
+        "O4-rs-detect: the per-position syndrome columns are computed by concrete runs of the current rs1024_polymod (their agreement "
+        "with the symbolic run of the real function is O4-rs-positions); the GF(2) left inverse used as a certificate is computed by "
+        "the harness and only its product with the syndrome map is trusted to z3",
+        "O6: mnemonic_to_bytes / bytes_to_mnemonic are seams (arbitrary secret in, token out)",
+        "a witness found on uninterpreted hashes is reported only when it reproduces with the real hashlib / hmac (replay)"],
+    "assumptions": [
+        "SLIP39 as transcribed in checks/c15.py spec_* functions (field polynomial 0x11B, Lagrange interpolation, share layout with a "
+        "15-bit identifier and 5-bit exponent as in the library and its test vectors, RS1024 generator constants, 4-round Feistel)",
+        "rs1024_polymod is a left fold over its argument with the single state variable chk (read off the source)",
+        "byte lanes: O2 runs all lanes symbolically at once, so lane independence is not assumed"],
+}
+
+MANIFEST = {"technique": "symbolic execution of the real SLIP39 functions (GF(256) tables as table selects, split / interpolate / recover on "
+                         "symbolic secrets and random bytes, ShareSet checks on symbolic header fields, share codec on symbolic word "
+                         "indices through a handle word list, RS1024 polymod if-converted, Feistel with PBKDF2 uninterpreted); z3 decides "
+                         "every assertion (per-constant GF lemmas, GF(2)-linear identities, linear-algebra certificates for error detection)"}
+
 POLY = 0x11B          # SLIP39: GF(256) = GF(2)[x] / (x^8 + x^4 + x^3 + x + 1)
 DIGEST_X, SECRET_X = 254, 255
 CS = b"shamir"
@@ -1184,7 +1270,8 @@ def ob_encode(nbits, patterns):
 
 def _words_of(indices, forms=None, words=None):
     words = words or _real_words()
-    return " ".join(words[i] if (forms is None or forms[k] == "full") else words[i][:4] for k, i in enumerate(indices))
+    return " ".join("zzzzzz" if (forms is not None and forms[k] == "unknown") else
+                    (words[i] if (forms is None or forms[k] == "full") else words[i][:4]) for k, i in enumerate(indices))
 
 
 def replay_encode(w):
@@ -1262,8 +1349,26 @@ def _model_true(cond):
         return None
 
 
+def _unknown_word_path(nwords, pos):
+    sh, S = mods()
+    hs = install_handles()
+    use_polymod("fold")
+    idx = [SI.var(f"w[{k}]", 0, 1023) for k in range(nwords)]
+    toks = [("zzzzzz" if k == pos else hs.token(i)) for k, i in enumerate(idx)]
+    try:
+        sh.Share.parse(" ".join(toks))
+    except Exception as ex:
+        check(True, "refused")
+        return type(ex).__name__
+    check(False, "a share mnemonic containing a word outside the list is accepted",
+          witness=lambda env: {"kind": "decode", "indices": [env[f"w[{k}]"] for k in range(nwords)], "forms": ["unknown" if k == pos else "full" for k in range(nwords)],
+                               "chk_valid": False})
+    return "accepted"
+
+
 def ob_decode(nwords, patterns):
     runs = [sym_run(lambda: _decode_path(nwords, pt), expect_classes=["accepted", "refused:ValueError"], timeout_ms=60000) for pt in patterns]
+    runs += [sym_run(lambda: _unknown_word_path(nwords, pos), expect_classes=["KeyError"]) for pos in (0, 4, nwords - 1)]
     m = merge_runs(runs)
     m["sample"] = {"words": nwords, "indices": "all symbolic in [0,1024)", "forms": list(patterns)}
     return m
@@ -1287,7 +1392,7 @@ def replay_decode(w):
             value = (value << 10) | i
         gt = ((c[2] >> 2) & 15) + 1
         gc = (((c[2] & 3) << 2) | (c[3] >> 8)) + 1
-        good = spec_rs1024_polymod(list(CS) + c) == 1 and (value >> nbits) == 0 and gt <= gc and nbits >= 128
+        good = spec_rs1024_polymod(list(CS) + c) == 1 and (value >> nbits) == 0 and gt <= gc and nbits >= 128 and "unknown" not in forms
         text = _words_of(c, forms, words)
         try:
             share = Share.parse(text)
